@@ -287,7 +287,8 @@ def _model_one(c):
           bad(f'trajectory:{cls}:{name}:{fk}', f'3 steps ({"+".join(filt) or "no filter"}) of the {"mirrored" if mir else "rotated"} '
               f'state (k={k}) differ from the transformed trajectory by {err:.3e} (relative)')
   out.append({'case': None, 'sig': '__stat__', 'detail': '', 'n': ncmp})
-  return out
+  prop = lambda g: (':node:explicit.' in g or ':node:implicit.' in g or g.startswith('trajectory:') or ':exception:' in g)
+  return common.settle(out, prop)
 
 
 def dataflow_levels(K):
@@ -301,7 +302,7 @@ REPLAYERS = {'action': replay_action, 'model': replay_model}
 def replay(ctx, kind, cases):
   for m in REPLAYERS[kind](cases):
     if m['sig'] != '__stat__':
-      ctx.mismatch(kind, m['case'], m['sig'], m['detail'])
+      ctx.record(kind, m)
 
 
 GRIDS = [dict(M=5, impl='real'), dict(M=4, impl='fast', mult=4, offset=0.2), dict(M=5, impl='real', I=17, J=9),
@@ -339,7 +340,7 @@ def run(ctx):
     if m['sig'] == '__stat__':
       ctx.comparisons += m['n']
     else:
-      ctx.mismatch('action' if m['sig'].startswith('action') else 'model', m['case'], m['sig'], m['detail'])
+      ctx.record('action' if m['sig'].startswith('action') else 'model', m)
   ctx.comparisons += len(acases) * 30
   for c in acases:
     ctx.distinct.add(json.dumps([c['I'], c['J'], c['k'], c['mir']]))
